@@ -94,9 +94,9 @@ def resolve(f, table=None):
     fn_path, cor_path = ev
     fb = f.bodies[fn_path]
     ctx_ty = None
-    for i in range(2, fb["arg_count"] + 1):
+    for i in range(1, fb["arg_count"] + 1):
         t = f.ty_s(fb["locals"][i]["ty"])
-        if t.startswith("&mut "):
+        if t.startswith("&mut ") and evalsum.EXPR not in t:
             ctx_ty = t[5:]
     if not ctx_ty:
         raise Inconclusive("the evaluator has no `&mut` context parameter")
